@@ -19,3 +19,4 @@ import FpgoVerif.Props.C04
 #print axioms FpgoVerif.C04.C04_len_agrees_partial
 #print axioms FpgoVerif.C04.C04_effects_closed
 #print axioms FpgoVerif.C04.C04_effects_inventory
+#print axioms FpgoVerif.C04.C04_ifaceRemove_frame
